@@ -16,65 +16,29 @@ theorem anc_spec (g : PMap) (k a : Key) : a ∈ anc g k ↔ Reach g [] [k] a := 
 
 /-- `plan_domain`: with `skip_full_merged=False`, `start=None` and `stop` either
 `None` or the last revision in topological order (the `rebase` command's case),
-the plan has exactly one entry per revision of `order`, in that order, and each
-new id is `generate_revid(old)`. -/
+the plan has exactly one entry per revision of `order`, in that order. -/
 theorem plan_domain (g : PMap) (gen : Key → Key) (todoS order : List Key) (stop : Option Key)
     (onto : Key) (plan : Plan) (hnd : order.Nodup)
     (hstop : ∀ s, stop = some s → order.getLast? = some s)
     (h : simplePlan g gen todoS order none stop onto false = .ok plan) :
     plan.map (·.old) = order := by
-  have := (planLoop_domain g gen onto order [] plan (simplePlan_loop hnd hstop h)).1
+  obtain ⟨sk, hl⟩ := simplePlan_loop hnd hstop h
+  have := (planLoop_domain g gen onto order ([], []) (plan, sk) hl).1
   simpa using this
 
-/-- `plan_new_ids`: every entry's new id is `generate_revid` of its old id (so new
-ids are distinct and fresh whenever `generate_revid` is injective and fresh) -/
+/-- `plan_new_ids`: every entry's new id is `generate_revid` of its old id and
+differs from it (so new ids are distinct and fresh whenever `generate_revid` is
+injective and fresh) -/
 theorem plan_new_ids (g : PMap) (gen : Key → Key) (todoS order : List Key) (stop : Option Key)
     (onto : Key) (plan : Plan) (hnd : order.Nodup)
     (hstop : ∀ s, stop = some s → order.getLast? = some s)
     (h : simplePlan g gen todoS order none stop onto false = .ok plan) :
     ∀ e ∈ plan, e.new = gen e.old ∧ e.new ≠ e.old := by
-  have hl := simplePlan_loop hnd hstop h
+  obtain ⟨sk, hl⟩ := simplePlan_loop hnd hstop h
   intro e he
-  have h1 : e.new = gen e.old := by
-    rcases (planLoop_domain g gen onto order [] plan hl).2 e he with h2 | h2
-    · cases h2
-    · exact h2
-  refine ⟨h1, ?_⟩
-  -- the loop raises AssertionError when gen old = old
-  have key : ∀ (todo : List Key) (p p' : Plan), planLoop g gen onto false p todo = .ok p' →
-      ∀ e ∈ p', e ∈ p ∨ gen e.old ≠ e.old := by
-    intro todo
-    induction todo with
-    | nil => intro p p' h e he; simp only [planLoop] at h; cases h; exact Or.inl he
-    | cons old todo ih =>
-      intro p p' h e he
-      simp only [planLoop] at h
-      split at h
-      · cases h
-      · rename_i p1 hstep
-        rcases ih p1 p' h e he with h3 | h3
-        · have hstep' := hstep
-          unfold planStep at hstep'
-          cases hp : parentsOf g old with
-          | none => simp [hp] at hstep'
-          | some l =>
-            cases l with
-            | nil => simp [hp] at hstep'
-            | cons p0 rest =>
-              simp only [hp, Bool.and_false, Bool.false_eq_true, if_false] at hstep'
-              by_cases hg : gen old = old
-              · simp [hg] at hstep'
-              · simp only [hg, if_false] at hstep'
-                cases hstep'
-                rcases List.mem_append.mp h3 with h4 | h4
-                · exact Or.inl h4
-                · simp only [List.mem_singleton] at h4
-                  subst h4
-                  exact Or.inr hg
-        · exact Or.inr h3
-  rcases key order [] plan hl e he with h2 | h2
+  rcases (planLoop_domain g gen onto order ([], []) (plan, sk) hl).2.2 e he with h2 | ⟨h2, h3⟩
   · cases h2
-  · rw [h1]; exact h2
+  · exact ⟨h2, by rw [h2]; exact h3⟩
 
 /-- `plan_domain_todo`: if `order` enumerates the present revisions of
 `find_difference(tip, onto)[0]`, the plan rewrites exactly the revisions that
@@ -92,49 +56,51 @@ theorem plan_domain_todo (g : PMap) (gen : Key → Key) (todoS order : List Key)
 
 /-! ### every new parent is the new base, an earlier new id, or a ghost -/
 
-/-- `plan_parents_closed_partial`: with `skip_full_merged=False`, `start=None`,
-`stop` = `None` or the tip, `order` a topological order of the present revisions
-of `find_difference(tip, onto)[0]`: walking the plan in its own order, every new
-parent is the new base `onto`, the new id of a revision rewritten earlier, or a
-ghost (which cannot be rewritten).
-
-PARTIAL: proved only for `skip_full_merged=False`.  With `True` (the `rebase`
-command's default) the statement is false — see `plan_skip_witness`. -/
-theorem plan_parents_closed_partial (g : PMap) (gen : Key → Key) (todoS order : List Key)
-    (stop : Option Key) (tip onto : Key) (plan : Plan) (hnd : order.Nodup)
+/-- `plan_parents_closed`: for BOTH settings of `skip_full_merged`, with
+`start=None`, `stop` = `None` or the tip, and `order` a topological order of the
+present revisions of `find_difference(tip, onto)[0]`: walking the plan in its
+own order, every new parent is the new base `onto`, the new id of a revision
+rewritten earlier, or a ghost (which cannot be rewritten).  In particular no
+entry refers to a skipped (fully merged) merge revision: its children are
+planned onto the parent that stands in for it. -/
+theorem plan_parents_closed (g : PMap) (gen : Key → Key) (todoS order : List Key)
+    (stop : Option Key) (tip onto : Key) (skip : Bool) (plan : Plan) (hnd : order.Nodup)
     (hstop : ∀ s, stop = some s → order.getLast? = some s)
     (hmem : ∀ k, k ∈ order ↔ (k ∈ todoSet g tip onto ∧ present g k = true))
     (htopo : topoFrom g order = true)
-    (h : simplePlan g gen todoS order none stop onto false = .ok plan) :
-    PlanClosed g onto [] plan :=
-  planLoop_closed g gen tip onto order [] [] plan (by simpa using hmem) htopo rfl trivial
-    (simplePlan_loop hnd hstop h)
+    (h : simplePlan g gen todoS order none stop onto skip = .ok plan) :
+    PlanClosed g onto [] plan := by
+  obtain ⟨sk, hl⟩ := simplePlan_loop hnd hstop h
+  exact planLoop_closed g gen tip onto skip order [] ([], []) (plan, sk) (by simpa using hmem) htopo
+    (fun k hk => by cases hk) (fun kv hkv => by cases hkv) trivial hl
 
 /-! ### skipping fully merged merges (the command's default) -/
 
-/-- with skipping, the plan still only rewrites revisions of `todo`, and every
-revision left out is a merge (it has at least two parents) -/
+/-- `plan_skip_domain`: with skipping, the plan still only rewrites revisions of
+`todo`; every revision left out is a merge (at least two parents) that was
+recorded in `skipped` with the single new parent standing in for it -/
 theorem plan_skip_domain (g : PMap) (gen : Key → Key) (onto : Key) (skip : Bool) :
-    ∀ (todo : List Key) (plan plan' : Plan), planLoop g gen onto skip plan todo = .ok plan' →
-      (∀ k ∈ plan'.map (·.old), k ∈ plan.map (·.old) ∨ k ∈ todo) ∧
-      (∀ k ∈ todo, k ∈ plan'.map (·.old) ∨
-        ∃ p0 p1 rest, parentsOf g k = some (p0 :: p1 :: rest)) := by
+    ∀ (todo : List Key) (st st' : Plan × Skipped), planLoop g gen onto skip st todo = .ok st' →
+      (∀ k ∈ st'.1.map (·.old), k ∈ st.1.map (·.old) ∨ k ∈ todo) ∧
+      (∀ k ∈ todo, k ∈ st'.1.map (·.old) ∨
+        (k ∈ st'.2.map (·.1) ∧ ∃ p0 p1 rest, parentsOf g k = some (p0 :: p1 :: rest))) := by
   intro todo
   induction todo with
   | nil =>
-    intro plan plan' h
+    intro st st' h
     simp only [planLoop] at h
     cases h
     exact ⟨fun k hk => Or.inl hk, fun k hk => by cases hk⟩
   | cons old todo ih =>
-    intro plan plan' h
+    intro st st' h
     simp only [planLoop] at h
     split at h
     · cases h
-    · rename_i plan1 hstep
-      obtain ⟨h1, h2⟩ := ih plan1 plan' h
+    · rename_i st1 hstep
+      obtain ⟨h1, h2⟩ := ih st1 st' h
+      obtain ⟨hm1, hm2⟩ := planLoop_mono g gen onto skip todo st1 st' h
       obtain ⟨p0, rest, hps, hc | hc⟩ := planStep_cases hstep
-      · obtain ⟨hp, hr, _⟩ := hc
+      · obtain ⟨hp, hr, _, _⟩ := hc
         subst hp
         refine ⟨fun k hk => ?_, fun k hk => ?_⟩
         · rcases h1 k hk with h3 | h3
@@ -142,61 +108,47 @@ theorem plan_skip_domain (g : PMap) (gen : Key → Key) (onto : Key) (skip : Boo
           · exact Or.inr (List.mem_cons_of_mem _ h3)
         · rcases List.mem_cons.mp hk with h3 | h3
           · subst h3
+            right
+            refine ⟨hm2 k (by simp), ?_⟩
             cases rest with
             | nil => exact absurd rfl hr
-            | cons p1 r => exact Or.inr ⟨p0, p1, r, hps⟩
+            | cons p1 r => exact ⟨p0, p1, r, hps⟩
           · exact h2 k h3
-      · subst hc
-        have hmap : ∀ k, k ∈ (plan ++ [(⟨old, gen old, (newParents g onto plan p0 rest).1 ::
-            (newParents g onto plan p0 rest).2⟩ : Entry)]).map (·.old) ↔ k ∈ plan.map (·.old) ∨ k = old := by
-          intro k; simp
+      · obtain ⟨hp, _⟩ := hc
+        subst hp
         refine ⟨fun k hk => ?_, fun k hk => ?_⟩
         · rcases h1 k hk with h3 | h3
-          · rcases (hmap k).mp h3 with h4 | h4
+          · simp only [List.map_append, List.map_cons, List.map_nil, List.mem_append,
+              List.mem_singleton] at h3
+            rcases h3 with h4 | h4
             · exact Or.inl h4
             · exact Or.inr (by simp [h4])
           · exact Or.inr (List.mem_cons_of_mem _ h3)
         · rcases List.mem_cons.mp hk with h3 | h3
           · subst h3
-            left
-            -- entries are never removed
-            have keep : ∀ (todo : List Key) (p p' : Plan), planLoop g gen onto skip p todo = .ok p' →
-                ∀ k ∈ p.map (·.old), k ∈ p'.map (·.old) := by
-              intro todo
-              induction todo with
-              | nil => intro p p' h k hk; simp only [planLoop] at h; cases h; exact hk
-              | cons o t iht =>
-                intro p p' h k hk
-                simp only [planLoop] at h
-                split at h
-                · cases h
-                · rename_i p1 hs
-                  apply iht p1 p' h
-                  obtain ⟨_, _, _, hc | hc⟩ := planStep_cases hs
-                  · rw [hc.1]; exact hk
-                  · rw [hc]; simp only [List.map_append, List.mem_append]; exact Or.inl hk
-            exact keep todo _ plan' h k ((hmap k).mpr (Or.inr rfl))
+            exact Or.inl (hm1 k (by simp))
           · exact h2 k h3
 
 /-- F12 graph: `1 ← 2 ← 3 (onto)`, `1 ← 4 ← 5 = merge(4, 2) ← 6`;
 `order = [4, 5, 6]` -/
 def f12G : PMap := [(0, []), (1, [0]), (2, [1]), (3, [2]), (4, [1]), (5, [4, 2]), (6, [5])]
 
-/-- `plan_skip_witness` (DESIGN §7-F12): with `skip_full_merged=True` the merge
-`5` is skipped and its child `6` is planned with parents `(onto, 5)`: the OLD
-merge revision, which is present (not a ghost), is not the new base and is not
-the new id of any entry.  The closure statement of
-`plan_parents_closed_partial` fails on this input, all of whose other
-hypotheses hold; with `False` the plan is closed. -/
-theorem plan_skip_witness :
+/-- `plan_skip_fixed` (the former counter-example DESIGN §7-F12, fixed in /repo by
+eb8d299): with `skip_full_merged=True` the merge `5` is skipped and its child `6`
+is now planned onto `104`, the NEW id of `4` that stands in for the skipped merge
+— a revision rewritten earlier, not the old merge revision `5`.  With `False`
+the merge is rewritten and `6` follows it.  The hypotheses of
+`plan_parents_closed` hold on this input. -/
+theorem plan_skip_fixed :
     (simplePlan f12G (· + 100) [4, 5, 6] [4, 5, 6] none (some 6) 3 true).toOption =
-        some [⟨4, 104, [3]⟩, ⟨6, 106, [3, 5]⟩] ∧
-      parentsOf f12G 5 = some [4, 2] ∧ (5 : Key) ≠ 3 ∧ (5 : Key) ∉ [104, 106] ∧
+        some [⟨4, 104, [3]⟩, ⟨6, 106, [104]⟩] ∧
       (simplePlan f12G (· + 100) [4, 5, 6] [4, 5, 6] none (some 6) 3 false).toOption =
         some [⟨4, 104, [3]⟩, ⟨5, 105, [104]⟩, ⟨6, 106, [105]⟩] ∧
+      (planLoop f12G (· + 100) 3 true ([], []) [4, 5, 6]).toOption =
+        some ([⟨4, 104, [3]⟩, ⟨6, 106, [104]⟩], [(5, 104)]) ∧
       (∀ k, k ∈ [4, 5, 6] ↔ (k ∈ todoSet f12G 6 3 ∧ present f12G k = true)) ∧
       topoFrom f12G [4, 5, 6] = true := by
-  refine ⟨by decide, by decide, by decide, by decide, by decide, ?_, by decide⟩
+  refine ⟨by decide, by decide, by decide, ?_, by decide⟩
   intro k
   have h : todoSet f12G 6 3 = [6, 5, 4] := by decide
   rw [h]
